@@ -152,6 +152,7 @@ type World struct {
 	liveProbe        int
 	colProbe         int
 	sharedSentinel   error
+	simPanicked      bool            // a scripted callback panic cut the current step short
 	simItems         []*simBase      // mutable items created so far
 	Template         *tabular.Cell   // a cell value prepared outside (shared BY VALUE between tables)
 	Other            *tabular.ATable // a second table some rows were also added to (C09 only)
@@ -246,6 +247,12 @@ func NewTemplateCell() *tabular.Cell {
 	for i, k := range tmplKeys {
 		c.SetProperty(k, 100+i)
 	}
+	// a history of overwrites and removals, as a cell that has been through a few
+	// renders has: links of its chain have been rebuilt
+	c.SetProperty(tmplKeys[0], 200)
+	c.SetProperty(tmplKeys[1], nil)
+	c.SetProperty(tmplKeys[1], 201)
+	c.SetProperty(tmplKeys[0], 202)
 	return &c
 }
 
